@@ -307,9 +307,28 @@ func (server *SugarDB) setExpiry(ctx context.Context, key string, expireAt time.
 		ExpireAt: expireAt,
 	}
 
-	// If the slice of keys associated with expiry time does not contain the current key, add the key.
 	server.keysWithExpiry.rwMutex.Lock()
-	if !slices.Contains(server.keysWithExpiry.keys[database], key) {
+	if expireAt == (time.Time{}) {
+		// The key no longer has an expiry time: it is not a volatile key any more.
+		server.keysWithExpiry.keys[database] = slices.DeleteFunc(server.keysWithExpiry.keys[database], func(k string) bool {
+			return k == key
+		})
+		switch strings.ToLower(server.config.EvictionPolicy) {
+		case constants.VolatileLFU:
+			if cache := server.lfuCache.cache[database]; cache != nil {
+				cache.Mutex.Lock()
+				cache.Delete(key)
+				cache.Mutex.Unlock()
+			}
+		case constants.VolatileLRU:
+			if cache := server.lruCache.cache[database]; cache != nil {
+				cache.Mutex.Lock()
+				cache.Delete(key)
+				cache.Mutex.Unlock()
+			}
+		}
+	} else if !slices.Contains(server.keysWithExpiry.keys[database], key) {
+		// If the slice of keys associated with expiry time does not contain the current key, add the key.
 		server.keysWithExpiry.keys[database] = append(server.keysWithExpiry.keys[database], key)
 	}
 	server.keysWithExpiry.rwMutex.Unlock()
